@@ -1,8 +1,10 @@
 (* C09 — the property theorems, instantiated for install / upgrade, in the form stated in
-   Props/C09.v. *)
+   Props/C09.v.  The install program is [OpsFix.install_fx] (= Ops.install with the repaired
+   replaceRelease; equal to it when --replace is off): [op_prog_fx]. *)
 From Coq Require Import List String Bool Arith ZArith Lia.
-From Helm Require Import Common.Assoc Engine.Types Engine.Eff Engine.Ops Engine.Cluster Engine.Seq Engine.SeqProofs
-                         Engine.Conc Engine.ConcProofs Engine.ConcLocal Engine.ConcProofsB Engine.ConcRG Engine.ConcRGProgs.
+From Helm Require Import Common.Assoc Engine.Types Engine.Eff Engine.Ops Engine.OpsFix Engine.Cluster Engine.Seq Engine.SeqProofs
+                         Engine.Conc Engine.ConcProofs Engine.ConcLocal Engine.ConcLocalFix Engine.ConcProofsB Engine.ConcRG Engine.ConcRGProgs
+                         Engine.ConcPrune.
 Import ListNotations.
 Local Open Scope string_scope.
 
@@ -21,23 +23,23 @@ Section C09.
     | _ => False
     end.
 
-  Lemma no_delete_op_prog o : no_delete_op o -> all_eff not_delete (op_prog rn ns o).
+  Lemma no_delete_op_prog o : no_delete_op o -> all_eff not_delete (op_prog_fx rn ns o).
   Proof.
     destruct o; simpl; intros H; try contradiction.
-    - now apply install_no_delete.
+    - now apply install_fx_no_delete.
     - now apply upgrade_no_delete.
   Qed.
 
   Theorem unique_creator (ops : list op) (sch : list nat) (l0 : list release) (k : K) :
     Forall no_delete_op ops -> NoDup (revs l0) ->
-    let res := run K kh dresp outcome (map (op_prog rn ns) ops) sch (mkC l0 k []) in
+    let res := run K kh dresp outcome (map (op_prog_fx rn ns) ops) sch (mkC l0 k []) in
     let tr := c_tr (snd res) in
     NoDup (created_revs tr)
     /\ (forall v, In v (revs (c_led (snd res))) -> ~ In v (revs l0) -> exists i, creators_of v tr = [i])
     /\ (forall v, In v (created_revs tr) -> ~ In v (revs l0) /\ In v (revs (c_led (snd res)))).
   Proof.
     intros HF H0 res tr.
-    assert (HF' : Forall (all_eff not_delete) (map (op_prog rn ns) ops)).
+    assert (HF' : Forall (all_eff not_delete) (map (op_prog_fx rn ns) ops)).
     { rewrite Forall_forall in *. intros p Hp. apply in_map_iff in Hp. destruct Hp as [o [<- Ho]].
       apply no_delete_op_prog. auto. }
     destruct (run_unique_creator K kh dresp outcome l0 _ sch k HF' H0) as [G1 [G2 G3]].
@@ -52,7 +54,7 @@ Section C09.
     match o with OpInstall _ _ _ _ _ | OpUpgrade _ _ _ _ _ => True | _ => False end.
 
   Theorem losers_are_inert (ts : list (prog outcome)) (sch : list nat) (l : list release) (k : K) (i : nat) (o : op) :
-    nth_error ts i = Some (op_prog rn ns o) -> install_or_upgrade o ->
+    nth_error ts i = Some (op_prog_fx rn ns o) -> install_or_upgrade o ->
     let res := run K kh dresp outcome ts sch (mkC l k []) in
     let tr := c_tr (snd res) in
     mutations_guarded false (thread_events i tr) = true
@@ -62,8 +64,8 @@ Section C09.
             nth_error (outcomes outcome (fst res)) i = Some (Some (OErr EExistsRev)))).
   Proof.
     intros Hn Ho res tr.
-    assert (Hi : inert (fun x => x = OErr EExistsRev) (op_prog rn ns o)).
-    { destruct o; simpl in *; try contradiction; [apply install_inert|apply upgrade_inert]. }
+    assert (Hi : inert (fun x => x = OErr EExistsRev) (op_prog_fx rn ns o)).
+    { destruct o; simpl in *; try contradiction; [apply install_fx_inert|apply upgrade_inert]. }
     destruct (run_losers_inert K kh dresp _ ts sch l k i _ Hn Hi) as [G1 G2].
     fold res in G1, G2. fold tr in G1, G2. split; [exact G1|].
     intros Hc. destruct (G2 Hc) as [M R]. split; [exact M|].
@@ -96,7 +98,7 @@ Section C09.
      name that is still in use" and performs no other effect *)
   Theorem install_loser_class (ts : list (prog outcome)) sch l k i fl cid vid mani hks :
     f_dry_run fl = false ->
-    nth_error ts i = Some (install rn ns fl cid vid mani hks) ->
+    nth_error ts i = Some (install_fx rn ns fl cid vid mani hks) ->
     let res := run K kh dresp outcome ts sch (mkC l k []) in
     let evs := thread_events i (c_tr (snd res)) in
     exists h, first_history evs = Some h
@@ -107,7 +109,7 @@ Section C09.
     intros Hd Hn res evs.
     destruct (run_follows K kh dresp outcome ts sch l k i _ Hn) as [a [Ha Hf]].
     fold res in Ha, Hf. fold evs in Hf.
-    destruct (install_first_read _ _ _ _ _ _ _ _ _ Hd Hf) as [c [t [E [h [Hh G]]]]].
+    destruct (install_fx_first_read _ _ _ _ _ _ _ _ _ Hd Hf) as [c [t [E [h [Hh G]]]]].
     exists h. rewrite E. simpl. split; [exact Hh|].
     intros last Hl Hr. destruct (G last Hl Hr) as [-> ->]. split; [now apply outcomes_nth|reflexivity].
   Qed.
@@ -121,25 +123,45 @@ Section C09.
     | _ => False
     end.
 
-  Lemma protocol_op_prog o : protocol_op o -> P_pre (op_prog rn ns o).
+  Lemma protocol_op_prog o : protocol_op o -> P_pre (op_prog_fx rn ns o).
   Proof.
     destruct o; simpl; intros H; try contradiction; destruct H as [H1 H2].
-    - now apply install_protocol.
+    - simpl. rewrite install_fx_eq by exact H1. now apply install_protocol.
     - now apply upgrade_protocol.
   Qed.
 
   Theorem quiescent_wf (ops : list op) (sch : list nat) (l0 : list release) (k : K) :
     Forall protocol_op ops ->
     NoDup (revs l0) -> count_deployed l0 <= 1 -> lock_free l0 = true ->
-    let res := run K kh dresp outcome (map (op_prog rn ns) ops) sch (mkC l0 k []) in
+    let res := run K kh dresp outcome (map (op_prog_fx rn ns) ops) sch (mkC l0 k []) in
     NoDup (revs (c_led (snd res))) /\ count_deployed (c_led (snd res)) <= 1.
   Proof.
     intros HF Hn Hc Hl res.
-    assert (HF' : Forall P_pre (map (op_prog rn ns) ops)).
+    assert (HF' : Forall P_pre (map (op_prog_fx rn ns) ops)).
     { rewrite Forall_forall in *. intros p Hp. apply in_map_iff in Hp. destruct Hp as [o [<- Ho]].
       apply protocol_op_prog. auto. }
     exact (run_quiescent_wf K kh dresp outcome _ sch l0 k HF' (conj Hn Hc) Hl).
   Qed.
+
+  (* with deletes allowed (install --atomic, history pruning) — ANY programs: a revision is never
+     created twice without a successful delete of it in between; every revision of the ledger
+     that is not an initial one has exactly one live creation *)
+  Theorem live_creator_unique (ts : list (prog outcome)) (sch : list nat) (l0 : list release) (k : K) :
+    let res := run K kh dresp outcome ts sch (mkC l0 k []) in
+    let live := map snd (live_creations (c_tr (snd res))) in
+    NoDup live
+    /\ (forall v, In v live -> In v (revs (c_led (snd res))))
+    /\ (forall v, In v (revs (c_led (snd res))) -> In v (revs l0) \/ In v live).
+  Proof. exact (run_live_creator K kh dresp outcome l0 ts sch k). Qed.
+
+  (* the pruning window, true form: whatever an upgrade --max-history N thread deletes is a
+     revision v such that the thread's own latest history read contains at least N-1 revisions
+     numbered >= v *)
+  Theorem upgrade_prunes_old (ts : list (prog outcome)) sch l k i fl cid vid mani hks :
+    nth_error ts i = Some (upgrade rn ns fl cid vid mani hks) ->
+    deletes_justified (f_max_history fl - 1) None
+      (thread_events i (c_tr (snd (run K kh dresp outcome ts sch (mkC l k []))))).
+  Proof. apply run_upgrade_prunes_old. Qed.
 End C09.
 
 (* ------------------------------------------------------------------ *)
@@ -156,15 +178,35 @@ Definition x_dep : list release :=
 Definition x_objs : list (string * fields) := [("ConfigMap/a", stamp_fields "rel" "default" [("d:k", "v2")])].
 
 Definition x_run (ops : list op) (sch : list nat) (l : list release) (k : kstate) :=
-  run kstate (kube_handle "rel" "default") dead_resp outcome (map (op_prog "rel" "default") ops) sch (mkC l k []).
+  run kstate (kube_handle "rel" "default") dead_resp outcome (map (op_prog_fx "rel" "default") ops) sch (mkC l k []).
 
-(* K-C09-1: install --replace racing install of a fresh name: both succeed, two deployed *)
+(* K-C09-1 (repaired in /repo): with the UNREPAIRED program [Ops.install], install --replace
+   racing install of a fresh name: both succeed, two deployed; with the repaired program the
+   same schedule makes the --replace operation return "another operation is in progress" *)
 Definition x_replace_ops := [OpInstall x_flR 4 4 [x_cm "a" "v4"] []; OpInstall x_fl0 2 2 [x_cm "a" "v2"] []].
 Definition x_replace_sched := [0; 1; 1; 1; 1; 0; 0; 0; 0; 0; 0; 0; 1; 1].
 
-Lemma quiescent_wf_replace_refuted :
-  let res := x_run x_replace_ops x_replace_sched [] (k0 []) in
+Lemma replace_race_before_fix :
+  let res := run kstate (kube_handle "rel" "default") dead_resp outcome
+                 (map (op_prog "rel" "default") x_replace_ops) x_replace_sched (mkC [] (k0 []) []) in
   outcomes outcome (fst res) = [Some OOk; Some OOk] /\ count_deployed (c_led (snd res)) = 2.
+Proof. vm_compute. split; reflexivity. Qed.
+
+Lemma replace_race_after_fix :
+  let res := x_run x_replace_ops x_replace_sched [] (k0 []) in
+  outcomes outcome (fst res) = [Some (OErr EPending); Some OOk] /\ count_deployed (c_led (snd res)) = 1
+  /\ thread_mutated 0 (c_tr (snd res)) = false.
+Proof. vm_compute. repeat split; reflexivity. Qed.
+
+(* --replace stays excluded from the quiescence theorem because of K1 (C01), which is
+   sequential: ONE install --replace on a history whose last revision is failed and an older one
+   deployed leaves both deployed *)
+Definition x_k1_led : list release :=
+  [mkRelease 1 SDeployed 1 1 [x_cm "a" "v1"] []; mkRelease 2 SFailed 2 2 [x_cm "a" "v2"] []].
+
+Lemma quiescent_wf_replace_refuted :
+  let res := x_run [OpInstall x_flR 4 4 [x_cm "a" "v4"] []] [] x_k1_led (k0 x_objs) in
+  outcomes outcome (fst res) = [Some OOk] /\ count_deployed (c_led (snd res)) = 2.
 Proof. vm_compute. split; reflexivity. Qed.
 
 (* upgrade --atomic whose cluster update is rejected once: its automatic rollback does not look
@@ -212,3 +254,52 @@ Lemma x_name_in_use_run :
   outcomes outcome (fst res) = [Some (OErr ENameInUse); Some OOk]
   /\ List.length (thread_events 0 (c_tr (snd res))) = 1.
 Proof. vm_compute. split; reflexivity. Qed.
+
+(* three concurrent operations meeting the hypotheses: upgrade | install | upgrade *)
+Definition x_three_ops :=
+  [OpUpgrade x_fl0 5 5 [x_cm "a" "v5"] [x_hook]; OpInstall x_fl0 9 9 [x_cm "a" "v9"] []; OpUpgrade x_fl0 6 6 [x_cm "b" "v6"] []].
+Definition x_three_sched := [0; 2; 1; 2; 0; 2; 2; 0; 0; 2; 2; 2].
+
+Lemma x_three_hyps : Forall protocol_op x_three_ops /\ Forall no_delete_op x_three_ops.
+Proof. split; repeat constructor. Qed.
+
+Lemma x_three_run :
+  let res := x_run x_three_ops x_three_sched x_dep (k0 x_objs) in
+  outcomes outcome (fst res) = [Some (OErr EExistsRev); Some (OErr ENameInUse); Some OOk]
+  /\ map (fun r => (rev r, st r)) (c_led (snd res)) = [(1, SSuperseded); (2, SSuperseded); (3, SDeployed)]
+  /\ creations (c_tr (snd res)) = [(2, 3)].
+Proof. vm_compute. repeat split; reflexivity. Qed.
+
+(* install --atomic: the trace-level "one successful create per revision" is false — the failed
+   atomic install purges its own record and a later install creates revision 1 again — while the
+   live-creation statement holds *)
+Definition x_atomic_install_ops := [OpInstall x_flA 4 4 [x_cm "a" "v4"] []; OpInstall x_fl0 2 2 [x_cm "b" "v2"] []].
+
+Lemma unique_creator_atomic_install_refuted :
+  let res := x_run x_atomic_install_ops [0; 0; 0; 0; 0; 0; 0; 0; 0; 0; 0; 0] []
+                   (mkK [] (Some (VCreate, "ConfigMap/a")) None false) in
+  creations (c_tr (snd res)) = [(0, 1); (1, 1)]
+  /\ live_creations (c_tr (snd res)) = [(1, 1)]
+  /\ outcomes outcome (fst res) = [Some (OErr EOtherErr); Some OOk]
+  /\ map (fun r => (rev r, st r)) (c_led (snd res)) = [(1, SDeployed)].
+Proof. vm_compute. repeat split; reflexivity. Qed.
+
+(* the pruning window as DESIGN.md stated it ("a stale creator needs at least N intervening
+   COMPLETED operations") is false: with max-history 2, ZERO completed operations suffice — the
+   stale upgrade prunes the other upgrade's PENDING revision 3 and creates revision 3 itself;
+   the first creator's final update then finds no record.  Consistent with [upgrade_prunes_old]:
+   N-1 = 1 revision numbered >= 3 was in the pruner's history read. *)
+Definition x_prune_led : list release :=
+  [mkRelease 1 SDeployed 1 1 [x_cm "a" "v1"] []; mkRelease 2 SFailed 2 2 [x_cm "a" "v2"] []].
+Definition x_prune_ops :=
+  [OpUpgrade (mkFlags false false false false 2 false false false false 0) 10 10 [x_cm "a" "v10"] [];
+   OpUpgrade x_fl0 11 11 [x_cm "a" "v11"] []].
+Definition x_prune_sched := [1; 1; 0; 0; 1; 0; 0; 0; 1; 1; 0; 1; 0; 0; 0].
+
+Lemma pruning_window_refuted :
+  let res := run_gated kstate (kube_handle "rel" "default") dead_resp outcome
+                 (map (op_prog_fx "rel" "default") x_prune_ops) x_prune_sched (mkC x_prune_led (k0 x_objs) []) in
+  creations (c_tr (snd res)) = [(1, 3); (0, 3)]
+  /\ live_creations (c_tr (snd res)) = [(0, 3)]
+  /\ nth_error (outcomes outcome (fst res)) 1 = Some (Some (OErr EOtherErr)).
+Proof. vm_compute. repeat split; reflexivity. Qed.
